@@ -147,6 +147,12 @@ inline void concrete_step(const Op &op, const Val &in, std::vector<Val> &out) {
     s.v[op.v0] = op.c.holds(in.v.data()) ? 1 : 0;
     push(s);
     break;
+  case O_CAST: { // only the conversions between an integer and a boolean are part of the alphabet
+    bool dst_bool = op.v0 == VB1 || op.v0 == VB2 || op.v0 == VB3, src_bool = op.v1 == VB1 || op.v1 == VB2 || op.v1 == VB3;
+    if (dst_bool && !src_bool && op.a == 0) { s.v[op.v0] = in.v[op.v1] != 0 ? 1 : 0; push(s); } // int -> bool: non-zero is true
+    else if (!dst_bool && src_bool && op.a == 2) { s.v[op.v0] = in.v[op.v1]; push(s); }         // zext bool -> int: 0 / 1
+    break;
+  }
   case O_BOOL_ASSIGN_VAR:
     s.v[op.v0] = op.a ? 1 - in.v[op.v1] : in.v[op.v1];
     push(s);
@@ -182,6 +188,7 @@ struct HOp {
   bool engine = false;   // handled by the engine itself (swap, copy r1:=r0)
   int engine_code = 0;
   bool boolean = false;  // needs CAP_BOOL
+  bool focus = false;    // member of the boolean-focus alphabet (deeper phase for the domains with CAP_BOOL)
   bool disabled = false; // excluded from the current phase (indices stay stable for replay)
 };
 
@@ -364,6 +371,22 @@ inline std::vector<HOp> build_alphabet(unsigned caps, bool extended) {
     { Op o; o.kind = O_BOOL_ASSUME; o.v0 = VB3; o.a = 1; badd(1, o, "assume(not b3)"); }
     { Op o; o.kind = O_BOOL_SELECT; o.v0 = VB3; o.v1 = VB1; o.v2 = VB2; o.v3 = VB1; badd(1, o, "b3:=ite(b1,b2,b1)"); }
     { Op o; o.kind = O_FORGET; o.v0 = VB1; badd(1, o, "forget(b1)"); }
+    { Op o; o.kind = O_BOOL_ASSIGN_CST; o.v0 = VB2; o.c = cst({}, 1, C_LEQ); badd(1, o, "b2:=false"); }
+    { Op o; o.kind = O_BOOL_ASSIGN_CST; o.v0 = VB2; o.c = cst({}, 0, C_LEQ); badd(1, o, "b2:=true"); }
+    { Op o; o.kind = O_BOOL_SELECT; o.v0 = VB3; o.v1 = VB2; o.v2 = VB1; o.v3 = VB2; badd(1, o, "b3:=ite(b2,b1,b2)"); }
+    { Op o; o.kind = O_BOOL_SELECT; o.v0 = VB3; o.v1 = VB3; o.v2 = VB1; o.v3 = VB2; badd(1, o, "b3:=ite(b3,b1,b2)"); }
+    { Op o; o.kind = O_CAST; o.a = 0; o.v0 = VB1; o.v1 = VX; badd(1, o, "b1:=trunc(x)"); }
+    { Op o; o.kind = O_CAST; o.a = 2; o.v0 = VX; o.v1 = VB1; badd(1, o, "x:=zext(b1)"); }
+    { Op o; o.kind = O_BOOL_ASSIGN_VAR; o.v0 = VB2; o.v1 = VB3; o.a = 1; badd(1, o, "b2:=not b3"); }
+    { Op o; o.kind = O_BOOL_ASSUME; o.v0 = VB2; o.a = 0; badd(1, o, "assume(b2)"); }
+    { Op o; o.kind = O_EXPAND; o.v0 = VX; o.v1 = VY; o.a = 1; badd(1, o, "forget(y);expand(x->y)"); } // the target is forgotten first: it is then a new variable
+    // boolean-focus alphabet: every boolean operation plus the numerical operations that interact with the recorded facts
+    const char *focus_names[] = {"x:=0", "x:=x+1", "y:=2", "forget(x)", "forget(y)", "assume(x<=0)", "assume(x>=1)", "expand(x->w)", "r1:=r0", "r0:=r0|r1"};
+    for (auto &h : A) {
+      if (h.boolean) h.focus = true;
+      for (auto n : focus_names)
+        if (h.op.name == n) h.focus = true;
+    }
   }
   if (!extended) {
     std::vector<HOp> core;
